@@ -95,8 +95,8 @@ class SimEnv:
 
     def _after_configure(self) -> None:
         import tempfile
-        from . import simpool
-        self.threads = simpool.SimThreads(self)
+        from . import simthreads
+        self.threads = simthreads.ThreadSched(self)
         tempfile._name_sequence = self._names_cls(self.clock_seed)
 
     # -- logging -------------------------------------------------------------------------------
@@ -359,6 +359,10 @@ class SimEnv:
         threading.Thread.start = sim_thread_start
         threading.Thread.join = sim_thread_join
         threading.Thread.is_alive = sim_thread_is_alive
+        from . import simthreads
+        real_lock, real_rlock = threading.Lock, threading.RLock
+        threading.Lock = lambda: simthreads.SimLock() if env.active else real_lock()
+        threading.RLock = lambda *a, **k: simthreads.SimRLock() if env.active else real_rlock(*a, **k)
         real_q_get = _queue.Queue.get
 
         def sim_q_get(self_q, block=True, timeout=None):
